@@ -43,6 +43,8 @@ type ChainParams struct {
 	Cancel   int  // number of steps to run the cancellation sweep on
 	Engine   int  // number of steps to run the engine verdict sweep on
 	Genesis  int  // number of adversarial genesis records
+	ForkBias string
+	GenesisOnly bool // directory with genesis records only (C13 stream)
 }
 
 type ChainResult struct {
@@ -72,6 +74,9 @@ func Generate(pr ChainParams) (res ChainResult) {
 	knobs := sc.Knobs
 	knobs.Epochs = pr.Epochs
 	knobs.PlainMinimal = pr.Plain
+	if pr.ForkBias != "" {
+		knobs.ForkBias = pr.ForkBias
+	}
 	sp := TinySpec(r.Fork(), knobs)
 	if err := CheckSpec(sp); err != nil {
 		res.Err = err
@@ -104,6 +109,10 @@ func Generate(pr ChainParams) (res ChainResult) {
 	gr := r.Fork()
 	for i := 0; i < pr.Genesis; i++ {
 		GenesisCase(rec, c.BLS, c.Stats, gr, sp, GenesisKinds[i%len(GenesisKinds)])
+	}
+	if pr.GenesisOnly {
+		c.finish(&res, pr)
+		return
 	}
 	if err := c.Genesis(plan); err != nil {
 		res.Err = err
